@@ -179,7 +179,20 @@ int decide(int me, int kind) {
         return me;
     }
 
-    if (kind == K_EXIT || kind == K_START || kind == K_FORCED) {
+    if (kind == K_FORCED) {
+        // the caller found a lock busy: whoever holds it must get to run. Pick uniformly among ALL other
+        // runnable threads, ignoring priorities and starvation (a priority rule would let two blocked
+        // high-priority threads hand the token to each other forever while the owner never runs).
+        int cand[MAX_THREADS];
+        int n = 0;
+        for (int i = 0; i < g_cfg.nthreads; ++i) {
+            if (i != me && runnable(i)) {
+                cand[n++] = i;
+            }
+        }
+        return n ? cand[rnd() % uint64_t(n)] : me;
+    }
+    if (kind == K_EXIT || kind == K_START) {
         const int t = pick_other(me);
         if (t >= 0) {
             return t;
